@@ -457,7 +457,13 @@ def oracle_find(c, r):
                        f"findNearestZeroCrossing({t!r}, {step!r}) raised {r[1]} ({n} samples, {rate} Hz, step = {float(spw)} samples)")
     if small:
         return Failure(dict(sig, clause="small-step-accepted"), f"step of {float(spw)} samples accepted, returned {r[1]!r}")
-    return judge_crossing(S, rate, n, t, r[1], sig, f"findNearestZeroCrossing({t!r}, {step!r}) at {rate} Hz")
+    what = f"findNearestZeroCrossing({t!r}, {step!r}) at {rate} Hz"
+    f = judge_crossing(S, rate, n, t, r[1], sig, what)
+    if f is None and n and not any(S) and inside and on_sample(t, rate) and whole:
+        # an all-zero recording: the target itself or the nearest sample
+        if abs(Fraction(r[1]) - Fraction(t)) * rate > 1 + Fraction(1, 10 ** 6):
+            return Failure(dict(sig, clause="all-zero-nearest"), f"{what}: all samples are zero but the result {r[1]!r} is more than a sample away")
+    return f
 
 
 def default_step_whole(rate):
